@@ -647,6 +647,11 @@ func (b *teletextPageBuffer) parsePacketHeader(i []byte, magazineNumber uint8, t
 	}
 	pageNumber := int(pageNumberTens)*10 + int(pageNumberUnits)
 
+	// Pages with a hexadecimal digit are not decimal pages: 0x1a must not be taken for page 20
+	if pageNumberTens > 9 || pageNumberUnits > 9 {
+		pageNumber = 0x100 | int(pageNumberTens)<<4 | int(pageNumberUnits)
+	}
+
 	// 0xff is a reserved page number value
 	if pageNumberTens == 0xf && pageNumberUnits == 0xf {
 		return
